@@ -412,4 +412,24 @@ example : coerceLit (fun _ => none) [("x", .list [.int 5])] (.list (.list (.scal
     ∧ coerceLit (fun _ => none) [] (.list (.list (.scalar .int))) (.list [.int 5]) true = none := by
   exact ⟨by rfl, by rfl⟩
 
+
+/-! ## static_agrees -/
+
+/-- **static_agrees.** On literals without variables (and without duplicate object fields, which
+    `validateCoercion` rejects and the run-time coercion would resolve by "last wins"),
+    `validateCoercion` reports no error exactly when `coerceLiteral` succeeds: a literal that
+    validation lets through never fails at run time, and one for which no coercion exists is a
+    validation error (the resolver is not reached). Both sides thread the item-to-list flag the
+    same way since patch 03 (as found, `[1]` for `[[Int]!]` was rejected statically but accepted
+    by the run-time code). -/
+theorem static_agrees (P : Parse) (T : Ty) (l : Lit) (allow : Bool) (hc : containsVar l = false)
+    (hd : l.noDup = true) :
+    validateCoercion P T l allow = true ↔ ∃ x, coerceLit P [] T l allow = some x := by
+  rw [validate_eq_coerces P T l allow hc hd, Option.isSome_iff_exists]
+
+example : validateCoercion (fun _ => none) (.list (.nonNull (.list (.scalar .int)))) (.list [.int 1]) true = false := by rfl
+example : validateCoercion (fun _ => none) (.list (.list (.scalar .int))) (.int 1) true = true
+    ∧ coerceLit (fun _ => none) [] (.list (.list (.scalar .int))) (.int 1) true = some (.list [.list [.int 1]]) := by
+  exact ⟨by rfl, by rfl⟩
+
 end ApiFu.C05
